@@ -339,6 +339,26 @@ def check_import(res, loaded, smf, exp, kn, asc, route, grouping=True):
         extra = [x for x in allgot if x not in want][:3]
         res.violation("M5-reimport", "load", "re-imported notes differ from the score: missing %s, unexpected %s" % ([(str(a), str(b), c) for a, b, c in miss], [(str(a), str(b), c) for a, b, c in extra]), site="notes")
         return
+    # M6: every re-imported part carries the time signatures of the file at their positions (the signatures of all
+    # generated parts are the same: one measure plan per score)
+    if kn["policy"] != "time_sig_change":
+        import partitura.score as S
+
+        shift = exp["shift"]
+        p0 = next((p for p in asc["parts"] if any(n["kind"] in ("note", "grace") for n in p["notes"])), None)
+        if p0 is not None:
+            ts_want = []
+            for i, ts in enumerate(p0["timesigs"]):
+                pos = gen.quarter_pos(p0, ts["t"]) + shift
+                if kn["policy"] == "pad_bar" and i == 0:
+                    pos = F(0)
+                ts_want.append((pos, ts["beats"], ts["beat_type"]))
+            ts_want.sort()
+            for part in loaded.parts:
+                ts_got = sorted((F(o.start.t, ppq), o.beats, o.beat_type) for o in part.iter_all(S.TimeSignature))
+                if ts_got != ts_want:
+                    res.violation("M6-import-signatures", "load", "mode %d: a re-imported part has time signatures %s, the file and the score have %s" % (kn["mode"], [(str(a), b, c) for a, b, c in ts_got], [(str(a), b, c) for a, b, c in ts_want]), site="time_signature")
+                    break
     if not grouping:
         return
     # grouping: partition into (part, voice) cells
